@@ -12,8 +12,9 @@ Next == s.phase # "done" /\ s' = Step(case, s) /\ UNCHANGED case
 NoNext == FALSE /\ UNCHANGED vars
 Spec == Init /\ [][Next]_vars /\ WF_vars(Next)
 
-\* ---- safety: the contract holds in every reachable state (every prefix of every request)
-Fails == Failing(case, s.obs)
+\* ---- safety: the contract holds in every reachable state (every prefix of every request; a warning that is
+\*      still owed is judged when the request is over)
+Fails == Failing(case, s.obs, s.phase = "done")
 Transparency == Fam(Fails, "Transparency") = {}
 WarnedWhenBroken == Fam(Fails, "Missing") = {}
 SilentWhenCompliant == Fam(Fails, "FalseAlarm") = {}
